@@ -104,6 +104,14 @@ func C09(o *core.Options) int {
 		if isCiter, code := c09ReplayCiter(o); isCiter {
 			return code
 		}
+		var seam struct {
+			Reader string `json:"reader"`
+			Shape  string `json:"shape"`
+		}
+		if err := core.LoadReplay(o.Replay, &seam); err == nil && seam.Reader != "" && seam.Shape != "" {
+			c09Seam(r) // a case of the iterator-cache seam: the whole (small) seam enumeration is re-run
+			return r.Finish()
+		}
 		return faultReplay(o, r, iteratorCachesCfg)
 	}
 	c09Seam(r)
